@@ -281,8 +281,22 @@ def extract_scripts(path, tag):
             if js in seen:
                 continue
             seen.add(js)
+            if '"Edge"' in js:
+                js = expand_edges(js)
             out.append((m.group(1), js))
     return out
+
+
+def expand_edges(js):
+    """`Edge(a, o)` of the graph family = CloneRoot(o) ; AdoptStore(a, o) on the real library."""
+    ops = []
+    for o in json.loads(js):
+        if o["op"] == "Edge":
+            ops.append(dict(op="CloneRoot", a=o["b"], b=0, d=o["d"]))
+            ops.append(dict(op="AdoptStore", a=o["a"], b=o["b"], d=o["d"]))
+        else:
+            ops.append(o)
+    return json.dumps(ops, separators=(",", ":"))
 
 
 # ---------------------------------------------------------------------------
@@ -458,15 +472,30 @@ FAMILIES["std"] = dict(
                   sim=[dict(nobj=3, caps="Caps3", num=6000, simlen=40, ops="OpsStdM"), dict(nobj=4, caps="Caps3", num=4000, simlen=50, ops="OpsStdM"),
                        dict(nobj=5, caps="Caps3", num=2000, simlen=60, ops="OpsStdM")]))
 
+# every adoption graph on N objects (each ordered pair recorded at most once/twice), every
+# subset and order of dropping the outside handles: the shape quantifier of C01/C03
+FAMILIES["graph"] = dict(
+    ops="OpsGraph", menu="MenuPlain", profile="core", append_teardown=True,
+    invs=["MC_C01", "MC_C02", "MC_C03", "MC_C06", "MC_C08"],
+    # simulation: TLC builds a random graph (all objects, then k edges); the driver appends the
+    # drops of all outside handles in a seeded random order
+    quick=dict(mc=[dict(nobj=3, caps="CapsG")],
+               sim=[dict(nobj=4, caps="CapsG", num=500, simlen=9), dict(nobj=5, caps="CapsG", num=400, simlen=12),
+                    dict(nobj=6, caps="CapsG", num=200, simlen=15)]),
+    thorough=dict(mc=[dict(nobj=3, caps="CapsG2"), dict(nobj=4, caps="CapsG6")],
+                  sim=[dict(nobj=4, caps="CapsG", num=8000, simlen=10), dict(nobj=5, caps="CapsG", num=8000, simlen=13),
+                       dict(nobj=6, caps="CapsG", num=6000, simlen=16), dict(nobj=8, caps="CapsG", num=3000, simlen=22)]))
+REQUIRED_ACTIONS["graph"] = ["StepMarkO", "OpEdge", "StepOrphan"]
+
 TIERS = {
     "quick": dict(drive=dict(scripts=240, length=60, nobj=5), chunks=6, mc_timeout=900),
     "thorough": dict(drive=dict(scripts=4000, length=150, nobj=7), chunks=14, mc_timeout=7200),
 }
 
 PROPS = {
-    "C01": dict(fams=["core"], monitor=["C01"], scale=True, level="model_checking"),
+    "C01": dict(fams=["core", "graph"], monitor=["C01"], scale=True, level="model_checking"),
     "C02": dict(fams=["core", "weak"], monitor=["C02"], level="model_checking"),
-    "C03": dict(fams=["core"], monitor=["C03"], scale=True, level="model_checking"),
+    "C03": dict(fams=["core", "graph"], monitor=["C03"], scale=True, level="model_checking"),
     "C04": dict(fams=["weak", "consume"], monitor=["C04"], level="model_checking"),
     "C05": dict(fams=["weak", "dtor05", "consume"], monitor=["C05"], level="model_checking"),
     "C06": dict(fams=["core", "stale"], monitor=["C06"], level="model_checking"),
@@ -573,6 +602,19 @@ def run_check(prop, tier, seed, replay):
                              simlen=c["simlen"], view=False, constraint="SimStop")
                 scr, info = tlc_simulate("%s_%s_%d" % (fam, tier, i), cfg, c["num"], 40 * c["simlen"], seed, 1800)
                 log("spec: %s simulation nobj=%d: %d scripts of %d calls" % (fam, c["nobj"], info["scripts"], c["simlen"]))
+                if F.get("append_teardown"):
+                    rr = random.Random(seed * 7919 + i)
+                    scr2 = os.path.join(wd, "teardown_%s_%d.ndjson" % (fam, i))
+                    with open(scr2, "w") as fo:
+                        for l in open(scr):
+                            ops_ = json.loads(l)
+                            ids = [o["a"] for o in ops_ if o["op"] == "New"]
+                            for rep_ in range(2):
+                                order = ids[:]
+                                rr.shuffle(order)
+                                ops_ += [dict(op="DropRoot", a=x, b=0, d=dict(op="none", x=0, y=0)) for x in order]
+                            fo.write(json.dumps(ops_, separators=(",", ":")) + "\n")
+                    scr = scr2
                 script_files.append(("tlc-sim-%s-%d-%d" % (fam, c["nobj"], i), scr, c["nobj"]))
             # 3. random histories generated by the harness itself (implementation -> specification)
             dv = T["drive"]
